@@ -423,7 +423,8 @@ int main(void) {
 			int rc, k, nep = atoi(tok[1]);
 			free_all(); reset_net();
 			KSI_CTX_new(&ctx);
-			rc = KSI_SigningHighAvailabilityService_new(ctx, &as);
+			extending = (n > 7 && !strcmp(tok[7], "x"));
+			rc = extending ? KSI_ExtendingHighAvailabilityService_new(ctx, &as) : KSI_SigningHighAvailabilityService_new(ctx, &as);
 			for (k = 0; k < nep && rc == KSI_OK; k++) { char uri[64]; snprintf(uri, sizeof(uri), "ksi+tcp://h%d.example:1", k); rc = KSI_AsyncService_addEndpoint(as, uri, cred_user, cred_key); }
 			if (rc == KSI_OK) rc = KSI_AsyncService_setOption(as, KSI_ASYNC_OPT_REQUEST_CACHE_SIZE, (void *)(size_t)atol(tok[2]));
 			KSI_AsyncService_setOption(as, KSI_ASYNC_OPT_SND_TIMEOUT, (void *)(size_t)atol(tok[3]));
